@@ -289,8 +289,8 @@ def canon_num(x):
     return [n, d]
 
 
-def state(q):
-    s = q.get_settings()
+def state(q, s=None):
+    s = s if s is not None else q.get_settings()
     pd = s.plot_dimensions
     try:
         pw, ph = canon_num(pd[0]), canon_num(pd[1])
@@ -322,6 +322,37 @@ def new_session(q):
 _FRESH = {}
 
 
+def fresh_vs_reset_in_customised_session():
+    """a NEW interpreter whose plotting defaults were customised before QExPy is first imported
+    (matplotlibrc / style sheet / rcParams — the documented ways to configure matplotlib): the
+    options right after import, and after a change followed by reset_default_configuration()"""
+    code = ("import sys, json; sys.path.insert(0, {!r}); sys.path.insert(0, {!r}); "
+            "import matplotlib; matplotlib.rcParams['figure.figsize'] = (9.0, 3.0); "
+            "matplotlib.rcParams['figure.dpi'] = 50; "
+            "import qexpy as q; from props import c20; a = c20.state(q); "
+            "q.set_plot_dimensions((5, 5)); q.set_monte_carlo_sample_size(77); "
+            "q.set_sig_figs_for_value(4); q.reset_default_configuration(); b = c20.state(q); "
+            "print('STATE=' + json.dumps([a, b]))").format(
+                C.REPO, os.path.dirname(os.path.dirname(os.path.abspath(__file__))))
+    env = dict(os.environ, MPLBACKEND="Agg")
+    p = subprocess.run([sys.executable, "-c", code], capture_output=True, text=True, env=env,
+                       timeout=300)
+    line = [l for l in p.stdout.splitlines() if l.startswith("STATE=")]
+    if not line:
+        raise RuntimeError("customised interpreter did not report its settings: " + p.stderr[-500:])
+    a, b = json.loads(line[0][6:])
+    if a != b:
+        diff = [f for f in a if b.get(f) != a[f]]
+        return [{"signature": "c20:reset-default:customised-session:" + ",".join(diff),
+                 "oracle": "independent", "kind": "violation",
+                 "what": "in a session whose matplotlib defaults were customised before qexpy was "
+                         "imported (rcParams figure.figsize = (9, 3)), reset_default_configuration() "
+                         "does not give the options of the freshly started session (" + ",".join(diff) + ")",
+                 "clause": "reset = fresh session", "impl": b, "expected": a,
+                 "input": [{"op": "customised-session"}], "subprocess": True}]
+    return []
+
+
 def fresh_process_state():
     """the options as a NEW interpreter process sees them right after `import qexpy`"""
     if "v" not in _FRESH:
@@ -347,6 +378,11 @@ def execute(q, prog, via_attr=False):
     import qexpy.settings.settings as S
     trace = []
     decos = {}
+    held = q.get_settings()       # a handle a user may keep for the whole session
+
+    def snap(**kw):
+        # the options as read now, and as read through the handle taken before the program
+        return dict(kw, cfg=state(q), held=state(q, held))
 
     def prepare(s):
         token = object()
@@ -354,7 +390,7 @@ def execute(q, prog, via_attr=False):
         exc = RAISES[name](id(token)) if name else None
 
         def body():
-            trace.append({"t": "enter", "cfg": state(q)})
+            trace.append(snap(t="enter"))
             run(s["body"])
             if exc is not None:
                 raise exc
@@ -401,7 +437,7 @@ def execute(q, prog, via_attr=False):
                         raise     # a real Ctrl-C, not one of ours
                     else:
                         res = "raised-other:" + type(e).__name__
-                trace.append({"t": "exit", "r": res, "cfg": state(q)})
+                trace.append(snap(t="exit", r=res))
                 continue
             try:
                 if op == "reset":
@@ -419,7 +455,7 @@ def execute(q, prog, via_attr=False):
                 res = "ok"
             except Exception:  # noqa: BLE001  (any exception raised for the request = reject)
                 res = "reject"
-            trace.append({"t": "op", "r": res, "cfg": state(q)})
+            trace.append(snap(t="op", r=res))
     pre(prog)
     run(prog)
     return trace
@@ -555,6 +591,12 @@ def direct_oracles(q, prog, trace, start, fresh):
             ev = trace[pos[0]]
             pos[0] += 1
             before, after = cur, ev["cfg"]
+            if "held" in ev and ev["held"] != ev["cfg"]:
+                diff = [f for f in ev["cfg"] if ev["held"].get(f) != ev["cfg"][f]]
+                fail("c20:held-settings-object:" + op, "after this request the options read through "
+                     "a settings object obtained earlier in the session differ from the options in "
+                     "force (" + ",".join(diff) + ")", "the options are one global state",
+                     impl=ev["held"], expected=ev["cfg"])
             if op == "read":
                 if after != before or ev["r"] != "ok":
                     fail("c20:read", "reading the settings changed them", "read is pure",
@@ -946,6 +988,8 @@ def correspond(ctx, ref=False, boost=1):
     alpha = alphabet(q)
     dist = collections.Counter()
     failures, fresh = fresh_checks(q, ctx, ref=ref)
+    failures += fresh_vs_reset_in_customised_session()
+    dist["customised-session:fresh-vs-reset"] = 1
     progs = single_call_programs(q, alpha)
     n_single = len(progs)
     exhaustive = False
@@ -1062,6 +1106,9 @@ def replay(ctx, rp):
         return {"fails": bool(fs), "failures": fs}
     if not isinstance(p, list):
         return {"fails": False, "note": "replay file carries no concrete input", "payload": rp}
+    if p and isinstance(p[0], dict) and p[0].get("op") == "customised-session":
+        fs = fresh_vs_reset_in_customised_session()
+        return {"fails": bool(fs), "failures": fs}
     fresh = fresh_process_state()
     tie = refresh_model()
     fs, traces = compare(q, [p], ctx, fresh=fresh)
